@@ -255,6 +255,8 @@ impl<
                 m.iter()
                     // Sanity check. Verify that the store agrees that this key is expired.
                     .filter_map(|(k, v)| {
+                        #[cfg(transparencies_stretto_verif)]
+                        crate::verif::yield_point("cleanup.before_check");
                         self.expiration(k)
                             .and_then(|t| {
                                 #[cfg(transparencies_stretto_verif)]
@@ -296,6 +298,8 @@ impl<
         let mut removed_items = Vec::new();
         if let Some(items) = items {
             for (k, v) in items.iter() {
+                #[cfg(transparencies_stretto_verif)]
+                crate::verif::yield_point("cleanup.before_check");
                 let expiration = self.expiration(k);
                 if let Some(t) = expiration {
                     #[cfg(transparencies_stretto_verif)]
